@@ -463,12 +463,12 @@ def run(repo, rep):
         found = sites.get(key, [])
         n += 1
         where = '%s:%d' % (found[-1][0].module.relpath, found[-1][1].lineno) if found else key[0]
-        if key[1] == 'assert' and len(found) > budget:
+        if key[1] in ('assert', 'raise AssertionError') and len(found) > budget:
             # more assertions than are accounted for, none of them implied by the tests that dominate it: whether an added assertion
             # can fail on a valid value is not something this rule can establish - undecided, not a violation
             rep.undecided('C07.e', 'may-raise:%s:%s' % key, where,
-                          '%d assert statements in %s.py (%s) where %d are accounted for (%s): cannot establish that the additional ones always hold'
-                          % (len(found), key[0], ', '.join('%s:%d' % (f_.qualname, s_.lineno) for f_, s_ in found), budget, why or 'none reasoned'))
+                          '%d %s in %s.py (%s) where %d are accounted for (%s): cannot establish that the additional ones always hold'
+                          % (len(found), 'assert statements' if key[1] == 'assert' else 'raise AssertionError statements (the claim "cannot happen")', key[0], ', '.join('%s:%d' % (f_.qualname, s_.lineno) for f_, s_ in found), budget, why or 'none reasoned'))
             continue
         rep.check(len(found) <= budget, 'C07.e', 'may-raise:%s:%s' % key, where,
                   '%d of at most %d sites: %s' % (len(found), budget, why),
